@@ -571,7 +571,7 @@ impl Prop for C12 {
         ]
     }
     fn cases(&self, tier: Tier) -> u32 {
-        tier.pick(6000, 200_000)
+        tier.pick(15_000, 200_000)
     }
     fn strategy(&self, tier: Tier) -> BoxedStrategy<Case> {
         let n = tier.pick(25usize, 60usize);
